@@ -1394,12 +1394,23 @@ class Joiner:
             if not self._leq_v(new.store[oid], vo, new, old, 0):
                 return False
         # every constraint of old must hold in new under the mapping
+        new_syms = None
         for (k, l) in old.num.cons:
             l2 = l
             for sname in list(l.t):
                 if sname in self.map:
                     l2 = l2.subst(sname, self.map[sname])
             if not new.num.entails((k, l2)):
+                # a join symbol of `old` that was not mapped and that `new` knows nothing about names a location that does not exist
+                # in `new` (a local that is dead on the new path): the constraint says something about that location only, i.e.
+                # nothing about the locations both states have (existential projection)
+                if new_syms is None:
+                    new_syms = set()
+                    for (_k2, l3) in new.num.cons:
+                        new_syms |= set(l3.t)
+                free = [sn for sn in l2.t if isinstance(sn, str) and sn.startswith("j") and sn not in self.map and sn not in new_syms]
+                if free and (k == "eq" or len(free) >= 1 and k == "le" and len(l2.t) - len(free) <= 1):
+                    continue
                 return False
         return True
 
@@ -1697,7 +1708,7 @@ class Joiner:
                 if vn in x[3] and vn in y[3]:
                     pay[vn] = {k: self.jv(x[3][vn][k], y[3][vn][k], a, b) for k in set(x[3][vn]) & set(y[3][vn])}
                 else:
-                    pay[vn] = dict(x[3].get(vn) or y[3].get(vn))
+                    pay[vn] = dict((x[3].get(vn) if vn in x[3] else y[3].get(vn)) or {})
             return ("enum", x[1], var, pay)
         if kx == "cursor" and ky == "cursor":
             cx, cy = x[1], y[1]
